@@ -302,6 +302,7 @@ def pubrel_race_family(report, prop, label="pubrel-race"):
     impl = harness_batch(reqs)
     model = driver_batch(reqs)
     ok, nopanic, bad = True, True, 0
+    mbad = 0
     for k, st in enumerate(starts):
         end = starts[k + 1] if k + 1 < len(starts) else len(reqs)
         report.case("|".join(reqs[st + 1:end]))
@@ -319,11 +320,11 @@ def pubrel_race_family(report, prop, label="pubrel-race"):
             if a.startswith("res=panic") or a == "res=died":
                 break
             if canon(a) != canon(b):
-                if bad < 6:
+                if mbad < 6:
                     report.add_finding(Finding(prop, "corr:" + label, {"clause": "model-vs-impl", "verb": reqs[i].split(" ")[0]},
                                                "PUBREL race scenario: implementation and model disagree", reqs[st + 1:i + 1] + ["# impl:  " + a[:400], "# model: " + b[:400]], has_input=False))
                 ok = False
-                bad += 1
+                mbad += 1
                 break
     # the wire, connection by connection: the PUBREL of packet id 1 goes out at most once per connection, whatever the server
     # repeats (C04: neither packet is ever repeated within one connection); a second PUBREC for a delivery whose PUBREC has
@@ -396,6 +397,7 @@ def due_timeout_family(report, prop, label="due-timeout-while-writing"):
     impl = harness_batch(reqs)
     model = driver_batch(reqs)
     ok, mon, bad, judged = True, True, 0, 0
+    mbad = 0
     for k, st in enumerate(starts):
         end = starts[k + 1] if k + 1 < len(starts) else len(reqs)
         report.case("|".join(reqs[st + 1:end]))
@@ -416,11 +418,11 @@ def due_timeout_family(report, prop, label="due-timeout-while-writing"):
             nxt = nst.get("next")
             if nxt in (None, "never") or int(nxt) > due:
                 mon = False
-                if bad < 8:
+                if mbad < 6:
                     report.add_finding(Finding(prop, "mon:" + label, {"clause": "due-timeout-not-reported"},
                                                f"the subscribe's ack timeout is due at {due} ms, the PUBREL of another operation is half written: next service time reported is {nxt}",
                                                reqs[st + 1:end]))
-                bad += 1
+                mbad += 1
     report.count(label + ".scenarios", len(scripts))
     report.count(label + ".judged", judged)
     report.obligation("corr:" + label, "correspondence", ok, f"{len(scripts)} scripted scenarios, every response compared")
@@ -455,6 +457,7 @@ def ping_behind_large_publish_family(report, prop="C14", label="ping-behind-publ
     impl = harness_batch(reqs)
     model = driver_batch(reqs)
     ok, mon, bad = True, True, 0
+    mbad = 0
     for k, st in enumerate(starts):
         end = starts[k + 1] if k + 1 < len(starts) else len(reqs)
         report.case("|".join(x[:80] for x in reqs[st + 1:end]))
@@ -482,11 +485,11 @@ def ping_behind_large_publish_family(report, prop="C14", label="ping-behind-publ
                         ping_written_at = t
                 if f.get("res", "").startswith("err:ConnectionClosed") and (ping_written_at is None or t < ping_written_at + 500):
                     mon = False
-                    if bad < 8:
+                    if mbad < 6:
                         report.add_finding(Finding(prop, "mon:" + label, {"clause": "live-peer-timed-out"},
                                                    f"keep-alive failure at {t} ms: " + ("no PINGREQ has left the client yet" if ping_written_at is None else f"the PINGREQ went out at {ping_written_at} ms, the server has until {ping_written_at + 500} ms")
                                                    + f" ({len(wire)} bytes written so far, the publish still being sent)", [x[:200] for x in reqs[st + 1:i + 1]]))
-                    bad += 1
+                    mbad += 1
                     break
     report.count(label + ".scenarios", len(scripts))
     report.obligation("corr:" + label, "correspondence", ok, f"{len(scripts)} scripted scenarios (versions x buffer sizes x write pace), every response compared")
@@ -527,6 +530,7 @@ def delayed_ping_spin_family(report, prop="C08", label="delayed-ping"):
     impl = harness_batch(reqs)
     model = driver_batch(reqs)
     ok, mon, bad = True, True, 0
+    mbad = 0
     for k, st in enumerate(starts):
         end = starts[k + 1] if k + 1 < len(starts) else len(reqs)
         report.case("|".join(x[:60] for x in reqs[st + 1:end]))
@@ -548,11 +552,11 @@ def delayed_ping_spin_family(report, prop="C08", label="delayed-ping"):
                 due = lambda n: n.get("next") not in (None, "never") and int(n["next"]) <= t
                 if due(n1) and sv.get("res") == "ok" and sv.get("bytes", "x") == "x" and not sv.get("comps") and impl[i] == impl[i + 3] and due(n2):
                     mon = False
-                    if bad < 8:
+                    if mbad < 6:
                         report.add_finding(Finding(prop, "mon:" + label, {"clause": "idle-spin"},
                                                    f"at {t} ms the engine reports a service time of {n1['next']} ms, the service call produces nothing, completes nothing and changes no state, "
                                                    f"and the reported time stays {n2['next']} ms: a driver spins until the PINGRESP arrives", [x[:160] for x in reqs[st + 1:i + 5]]))
-                    bad += 1
+                    mbad += 1
                     break
     report.count(label + ".scenarios", len(scripts))
     report.obligation("corr:" + label, "correspondence", ok, f"{len(scripts)} scripted scenarios, every response compared")
@@ -641,6 +645,7 @@ def trailing_empty_field_family(report, prop="C08", label="trailing-empty-field"
                     if pre + 4 <= cap:
                         cases.append((v, kind, cap, pre))
     ok, mon, bad = True, True, 0
+    mbad = 0
     refs = {}
     all_reqs, spans = [], []
     results = []
@@ -673,11 +678,11 @@ def trailing_empty_field_family(report, prop="C08", label="trailing-empty-field"
             diff = ", ".join(f"{key}: {tight[key]} instead of {ample[key]}" for key in tight if tight[key] != ample[key] and key != "bytes")
             if tight["bytes"] != ample["bytes"]:
                 diff += f"; bytes on the wire differ ({len(tight['bytes']) // 2} vs {len(ample['bytes']) // 2} bytes)"
-            if bad < 10:
+            if mbad < 6:
                 report.add_finding(Finding(prop, "mon:" + label, {"clause": "outcome-depends-on-buffer-size", "kind": kind, "version": v},
                                            f"MQTT {'3.1.1' if v == '311' else '5'} {kind}: with a {cap}-byte buffer ({pre} bytes taken) the history ends differently from the same history with a 4096-byte buffer: {diff}",
                                            [x for x, _ in log[1:]] + ["# outcome:   " + str({k2: v2 for k2, v2 in tight.items() if k2 != 'bytes'})[:300], "# reference: " + str({k2: v2 for k2, v2 in ample.items() if k2 != 'bytes'})[:300]]))
-            bad += 1
+            mbad += 1
     report.count(label + ".scenarios", len(cases))
     report.obligation("corr:" + label, "correspondence", ok, f"{len(cases)} driven histories, every response compared with the model's")
     report.obligation("mon:" + label, "monitor", mon, "bytes, completions, verdicts on the server's packets and the final state are those of the same history with an ample buffer")
@@ -830,4 +835,141 @@ def packet_id_wrap_family(report, prop="C06", label="packet-id-wrap"):
             report.count(label + ".publishes", len(ids))
     report.obligation("corr:" + label, "correspondence", ok, "4 connections x 65540 publishes (the cursor wraps), every response compared")
     report.obligation("mon:" + label, "monitor", mon, "every identifier non-zero and not held by an unacknowledged publish, across the wrap")
+    return ok and mon
+
+
+def inbound_chunking_family(report, prop="C03", label="inbound-chunking"):
+    """what the application sees of the server's byte stream must not depend on how the stream is split into reads - also
+    when the stream goes bad: well-formed packets in front of a malformed (or oversize) one are handled (an inbound PUBLISH is
+    surfaced, an acknowledgement completes its operation) whether or not the bad bytes arrive in the same read."""
+    from gv import harness_batch, resp_fields, unhex
+    scripts, groups = [], []
+    for v in ("5", "311"):
+        connack = "x20020000" if v == "311" else "x2003000000"
+        p5 = b"\x00" if v == "5" else b""
+        pubs = {"q0": bytes([0x30, 5 + len(p5), 0, 3]) + b"a/b" + p5,
+                "q1": bytes([0x32, 7 + len(p5) + 3, 0, 3]) + b"a/b" + bytes([0, 7]) + p5 + bytes([1, 2, 3]),
+                "q2": bytes([0x34, 7 + len(p5), 0, 3]) + b"a/b" + bytes([0, 9]) + p5}
+        puback = bytes([0x40, 2, 0, 1])
+        bads = {"garbage": bytes([0, 0]), "oversize": bytes([0x30, 0xff, 0xff, 0xff, 0x7f]), "badflags": bytes([0x41, 2, 0, 1])}
+        for pk, pub in pubs.items():
+            for good in ([pub], [puback], [pub, puback], [puback, pub]):
+                for bk, bad in bads.items():
+                    stream = good + [bad]
+                    chunkings = [[b"".join(stream)], stream, [b"".join(good), bad]]
+                    whole = b"".join(stream)
+                    chunkings.append([whole[i:i + 1] for i in range(len(whole))])
+                    grp = []
+                    for ch in chunkings:
+                        mps = " mps=200" if bk == "oversize" and v == "5" else ""
+                        sc = [f"eng.new v={v} policy=all drain=none pingto=100000 resolver=none rmax=2 | ka=0 cid=x63 rm=10{mps}", "eng.open t=0 deadline=30000", "eng.svc t=0 cap=4096 prefill=0", "eng.wc t=0",
+                              f"eng.data t=0 b={connack}", "eng.pub t=1 | publish pid=0 topic=x742f30 qos=1 retain=0 payload=x00", "eng.svc t=1 cap=4096 prefill=0", "eng.wc t=1"]
+                        sc += [f"eng.data t=2 b={hexs(c)}" for c in ch if c]
+                        grp.append(len(scripts))
+                        scripts.append(sc)
+                    groups.append((v, pk, bk, grp))
+    reqs, starts = [], []
+    for sc in scripts:
+        starts.append(len(reqs))
+        reqs.append("session.reset")
+        reqs += sc
+    impl = harness_batch(reqs)
+    model = driver_batch(reqs)
+    ok, mon, bad_n, mon_n = True, True, 0, 0
+    def seen(k):
+        st = starts[k]
+        end = starts[k + 1] if k + 1 < len(starts) else len(reqs)
+        events, comps, err = [], [], None
+        for i in range(st, end):
+            if not reqs[i].startswith("eng.data t=2"):
+                continue
+            f, segs = resp_fields(impl[i])
+            events += [x.split(" ")[0] + " " + " ".join(y for y in x.split(" ") if y.startswith(("pid=", "qos="))) for x in segs]
+            comps += [x for x in f.get("comps", "").split(",") if x]
+            if f.get("res", "").startswith("err") and err is None:
+                err = f["res"].split(":")[0]
+        return {"surfaced": sorted(events), "completed": sorted(comps), "failed": err is not None}
+    for k, st in enumerate(starts):
+        end = starts[k + 1] if k + 1 < len(starts) else len(reqs)
+        for i in range(st, end):
+            if canon(impl[i]) != canon(model[i]):
+                ok = False
+                if bad_n < 4:
+                    report.add_finding(Finding(prop, "corr:" + label, {"clause": "model-vs-impl", "verb": reqs[i].split(" ")[0]},
+                                               "inbound chunking scenario: implementation and model disagree", reqs[st + 1:i + 1] + ["# impl:  " + impl[i][:300], "# model: " + model[i][:300]], has_input=False))
+                bad_n += 1
+                break
+    for v, pk, bk, grp in groups:
+        outs = [seen(k) for k in grp]
+        report.case(f"{v}|{pk}|{bk}|" + "|".join(reqs[starts[grp[0]] + 9:starts[grp[0] + 1] if grp[0] + 1 < len(starts) else len(reqs)]))
+        report.traces_validated += 1
+        report.count(label + "." + bk)
+        for k, o in zip(grp[1:], outs[1:]):
+            if o != outs[0]:
+                mon = False
+                st = starts[grp[0]]
+                end = starts[grp[0] + 1]
+                if mon_n < 6:
+                    report.add_finding(Finding(prop, "mon:" + label, {"clause": "chunking-dependent", "version": v, "bad": bk},
+                                               f"the same server stream delivered in one read gives {outs[0]}, split into reads it gives {o}: packets in front of the bad bytes are dropped when they arrive in the same read",
+                                               reqs[st + 1:end] + ["# the other chunking:"] + reqs[starts[k] + 9:(starts[k + 1] if k + 1 < len(starts) else len(reqs))]))
+                mon_n += 1
+                break
+    report.count(label + ".scenarios", len(scripts))
+    report.obligation("corr:" + label, "correspondence", ok, f"{len(scripts)} scripted connections, every response compared")
+    report.obligation("mon:" + label, "monitor", mon, f"{len(groups)} server streams x 4 chunkings: surfaced packets, completed operations and the verdict are the same")
+    return ok and mon
+
+
+def timeout_at_failing_service_family(report, prop="C18", label="timeout-at-failing-service"):
+    """an ack timeout that has elapsed is applied by the first service call at or after it - also when that very call ends
+    the connection (the PINGRESP deadline of a silent peer falls at the same moment, or the driver is late): the operation
+    fails with the ack-timeout error there, it is not carried over to the next connection with a fresh clock."""
+    from gv import harness_batch, resp_fields
+    scripts = []
+    for v in ("5", "311"):
+        connack = "x20020000" if v == "311" else "x2003000000"
+        for kind, T, late in (("pub1", 5000, 15000), ("pub1", 1000, 60000), ("pub2", 5000, 15000), ("sub", 5000, 15000), ("pub1", 5000, 15001)):
+            op = {"pub1": f"eng.pub t=10000 timeout={T} | publish pid=0 topic=x742f30 qos=1 retain=0 payload=x00",
+                  "pub2": f"eng.pub t=10000 timeout={T} | publish pid=0 topic=x742f30 qos=2 retain=0 payload=x00",
+                  "sub": f"eng.sub t=10000 timeout={T} | subscribe pid=0 sub=x662f30:1:0:0:0"}[kind]
+            sc = [f"eng.new v={v} policy=all drain=none pingto=5000 resolver=none rmax=2 | ka=10 cid=x63", "eng.open t=0 deadline=30000", "eng.svc t=0 cap=4096 prefill=0", "eng.wc t=0",
+                  f"eng.data t=0 b={connack}", op, "eng.svc t=10000 cap=4096 prefill=0", "eng.wc t=10000", "eng.nst t=10001", f"eng.svc t={late} cap=4096 prefill=0", "eng.snap"]
+            scripts.append((sc, T, late))
+    reqs, starts = [], []
+    for sc, _, _ in scripts:
+        starts.append(len(reqs))
+        reqs.append("session.reset")
+        reqs += sc
+    impl = harness_batch(reqs)
+    model = driver_batch(reqs)
+    ok, mon, bad, mon_n = True, True, 0, 0
+    for k, st in enumerate(starts):
+        end = starts[k + 1] if k + 1 < len(starts) else len(reqs)
+        sc, T, late = scripts[k]
+        report.case("|".join(reqs[st + 1:end]))
+        report.traces_validated += 1
+        for i in range(st, end):
+            if canon(impl[i]) != canon(model[i]):
+                ok = False
+                if bad < 4:
+                    report.add_finding(Finding(prop, "corr:" + label, {"clause": "model-vs-impl", "verb": reqs[i].split(" ")[0]},
+                                               "timeout-at-failing-service scenario: implementation and model disagree", reqs[st + 1:i + 1] + ["# impl:  " + impl[i][:300], "# model: " + model[i][:300]], has_input=False))
+                bad += 1
+                break
+        svc, _ = resp_fields(impl[end - 2])
+        wrote, _ = resp_fields(impl[st + 7])
+        # the packet was completely written by the service call at 10000 (it and the PINGREQ fit one buffer): T has elapsed at `late`
+        if wrote.get("bytes", "x") != "x" and 10000 + T <= late:
+            comps = svc.get("comps", "")
+            if "AckTimeout" not in comps:
+                mon = False
+                if mon_n < 6:
+                    report.add_finding(Finding(prop, "mon:" + label, {"clause": "elapsed-timeout-not-applied"},
+                                               f"the ack timeout ({T} ms from the write at 10000 ms) has elapsed at the service call at {late} ms; that call returns {svc.get('res')} and delivers {comps or 'nothing'}: the operation is not failed with AckTimeout",
+                                               reqs[st + 1:end] + ["# impl: " + impl[end - 2][:200]]))
+                mon_n += 1
+    report.count(label + ".scenarios", len(scripts))
+    report.obligation("corr:" + label, "correspondence", ok, f"{len(scripts)} scripted connections, every response compared")
+    report.obligation("mon:" + label, "monitor", mon, "an elapsed ack timeout is applied by the first service call at or after it, whatever else that call finds")
     return ok and mon
